@@ -12,7 +12,7 @@ from spec import pmsa as PM
 from spec import state as ST
 from spec.rt import bits, bit
 from . import machine as MC
-from .common import method_unit
+from .common import method_unit, own_frame, ALSO_MEM
 
 ASSUMPTIONS = ['region loop: initial accumulators, one inductive step for an arbitrary region and arbitrary accumulators, and the '
                'code after the loop for an arbitrary scan result are proved; equality for every N follows by induction on the range '
@@ -114,6 +114,7 @@ def translate_unit(n, mode='unrolled'):
         except PyRaise as e:
             exc = e.exc
         final = mach.read()
+        own_frame(eng, 'translate_address_p')
         sp = spec_translate(init, va, ispriv, iswrite, wasaligned, n, acc=acc if (acc and 'found' in acc) else None)
         dc = sp['unpred']
         if exc is not None and not issubclass(exc.cls, m.arm_exceptions.DataAbortException):
@@ -213,7 +214,7 @@ def translate_unit(n, mode='unrolled'):
         return bad, '\n'.join(lines)
 
     return Unit(uid, ['C14'], symbolic, replay, {'contracts': {}, 'max_paths': 50000, 'merge_calls': merge_set()},
-                meta={'function': '%s.ArmV6.translate_address_p' % A.__module__})
+                meta={'function': '%s.ArmV6.translate_address_p' % A.__module__, 'also': ALSO_MEM})
 
 
 def loop_units(n):
@@ -307,8 +308,8 @@ def loop_units(n):
 
     def nreplay(inputs, ob):
         return False, 'inductive-step obligation of the region loop; replay through the unrolled unit (regions=2)'
-    out.append(Unit('C14/loop:translate_address_p/head', ['C14'], head, nreplay, {'contracts': {}}, meta={'function': '%s.ArmV6.translate_address_p' % A.__module__, 'inductive': True}))
-    out.append(Unit('C14/loop:translate_address_p/step', ['C14'], step, nreplay, {'contracts': {}}, meta={'function': '%s.ArmV6.translate_address_p' % A.__module__, 'inductive': True}))
+    out.append(Unit('C14/loop:translate_address_p/head', ['C14'], head, nreplay, {'contracts': {}}, meta={'function': '%s.ArmV6.translate_address_p' % A.__module__, 'inductive': True, 'also': ALSO_MEM}))
+    out.append(Unit('C14/loop:translate_address_p/step', ['C14'], step, nreplay, {'contracts': {}}, meta={'function': '%s.ArmV6.translate_address_p' % A.__module__, 'inductive': True, 'also': ALSO_MEM}))
     return out
 
 
@@ -342,6 +343,7 @@ def alignment_unit():
         except PyRaise as e:
             exc = e.exc
         ok = exc is not None and issubclass(exc.cls, m.arm_exceptions.DataAbortException)
+        own_frame(eng, 'alignment_fault')
         eng.oblige('post', 'alignment_fault raises the Data Abort', ok)
         if not ok:
             return
@@ -366,7 +368,7 @@ def alignment_unit():
         exp_dfsr = PM.pmsa_dfsr(init['dfsr'], PM.FS_PMSA['ALIGNMENT'], w)
         text = 'alignment_fault(%s, write=%s): raised %s, DFSR %s (architecture %s), DFAR %s' % (hex(a), w, type(got).__name__, hex(fin['dfsr']), hex(exp_dfsr), hex(fin['dfar']))
         return (type(got).__name__ != 'DataAbortException' or fin['dfsr'] != exp_dfsr or fin['dfar'] != a), text
-    return Unit(uid, ['C14'], symbolic, replay, {'contracts': {}, 'merge_calls': merge_set()}, meta={'function': '%s.ArmV6.alignment_fault' % A.__module__})
+    return Unit(uid, ['C14'], symbolic, replay, {'contracts': {}, 'merge_calls': merge_set()}, meta={'function': '%s.ArmV6.alignment_fault' % A.__module__, 'also': ALSO_MEM})
 
 
 def units(tier):
